@@ -247,7 +247,7 @@ func RunC14(ch *core.Chooser, env *Env) *Outcome {
 		out.Violation = &Violation{Class: "deadlock", Detail: fmt.Sprintf("no task enabled after %d steps with unfinished tasks (bounded progress)", res.Steps)}
 		return out
 	case res.StepCap:
-		out.Violation = &Violation{Class: "no-progress", Detail: fmt.Sprintf("run exceeded its step cap %d (50x the sequential step count)", p.cfg.StepCap)}
+		out.Violation = &Violation{Class: "no-progress", Detail: fmt.Sprintf("run exceeded twice its step cap %d (50x the sequential step count), the second half under a fair least-recently-run schedule", p.cfg.StepCap)}
 		return out
 	}
 	if refAfter {
@@ -282,6 +282,7 @@ func addProbes(out *Outcome, p *core.Probes) {
 	out.Probes["preemptions"] += p.Preemptions
 	out.Probes["lock_tracking_corrected_by_real_probe"] += p.TrackingCorrected
 	out.Probes["speculative_release_did_not_block"] += p.SpecPassed
+	out.Probes["fair_phase_after_step_cap"] += p.FairPhase
 	if p.MaxEnabled > out.Probes["max_enabled_tasks"] {
 		out.Probes["max_enabled_tasks"] = p.MaxEnabled
 	}
